@@ -238,7 +238,7 @@ def run_inst(spec, run):
                 cv.append("raised %s: %s" % (type(e).__name__, e))
             if cv:
                 run.obligation(ctx, "configurator-defaults-and-polyhedron", True, conc, known=kn, extra="; ".join(cv))
-        run.validate(ctx, conc, lambda m: {"val": [S.model_int(m, val.lower), S.model_int(m, val.upper)]})
+        run.validate(ctx, conc, lambda m: {"val": [S.model_int(m, val.lower), S.model_int(m, val.upper)]}, extremes=plh.extremes(env), known=kn)
         run.sample({"model": pl.show(model_spec), "json_keys": sorted(j.keys()), "path_condition": [str(z3.simplify(c)) for c in ctx.pc][:5]})
 
     st = S.explore(fn, on_path, max_paths=8000, wall=900)
